@@ -396,6 +396,8 @@ class Interp:
                     inst.fields[name] = val
                 return val
             if isinstance(raw, (types.WrapperDescriptorType, types.MethodDescriptorType, types.BuiltinFunctionType)):
+                if isinstance(inst, SEnum) and issubclass(inst.cls, int) and defcls is int:
+                    return ModelMethod(self.models.enum_value(self, inst), name)
                 return BoundMethod(inst, raw, defcls)
             raise Unsupported(f"descriptor {type(raw).__name__} for attribute {name}")
         return raw
@@ -644,6 +646,12 @@ class Interp:
 
     def call_function(self, f, args, kwargs, defcls=None):
         """Interpret a python function / IFunc of the repo (or of the sidecar contracts)."""
+        stubs = self.cfg.get("stubs_map")
+        if stubs and not isinstance(f, IFunc) and f in stubs:
+            # callee replaced by its executable contract (a function in /verif/contracts); the real
+            # function is proved to satisfy that contract by its own lemmas
+            self.contracts_used.add(f"{f.__module__}:{f.__qualname__} -> {stubs[f].__module__}:{stubs[f].__qualname__}")
+            f = stubs[f]
         if self.registry is not None and not isinstance(f, IFunc):
             c = self.registry.contract_for(f, defcls)
             if c is not None and not self.registry.is_under_verification(f):
@@ -1234,8 +1242,33 @@ class Interp:
                 d[kk] = self.eval(v, frame)
         return d
 
+    def _simple_pure(self, n):
+        if isinstance(n, ast.Constant):
+            return isinstance(n.value, (int, bool))
+        if isinstance(n, ast.Name):
+            return True
+        if isinstance(n, ast.Attribute):
+            return self._simple_pure(n.value) and isinstance(n.value, ast.Name)
+        return False
+
     def e_IfExp(self, e, frame):
-        if self.truth(self.eval(e.test, frame)):
+        c = self.eval(e.test, frame)
+        if self.cfg.get("merge_ifexp") and isinstance(c, (SBool, SInt)) and self._simple_pure(e.body) and self._simple_pure(e.orelse):
+            # `a if c else b` over plain integer operands: one value If(c, a, b) instead of two paths
+            try:
+                a = self.eval(e.body, frame)
+                b = self.eval(e.orelse, frame)
+            except PyRaise:
+                a = b = None
+            if a is not None and is_intlike(a) and is_intlike(b) and not isinstance(a, enum.Enum) and not isinstance(b, enum.Enum) and not isinstance(a, bool) and not isinstance(b, bool) and not isinstance(a, SBool) and not isinstance(b, SBool):
+                zb = self.as_z3_bool(c)
+                la, na = bits_of(a)
+                lb, nb_ = bits_of(b)
+                return self.sint(z3.If(zb, iexpr(a), iexpr(b)), min(la, lb), None if (na is None or nb_ is None) else max(na, nb_))
+            if self.truth(c):
+                return self.eval(e.body, frame)
+            return self.eval(e.orelse, frame)
+        if self.truth(c):
             return self.eval(e.body, frame)
         return self.eval(e.orelse, frame)
 
